@@ -273,6 +273,25 @@ def cex_states(cex):
         return []
 
 
+def text_last_state(out):
+    """Fallback when the json counterexample cannot be read: `bad` and `l` of the last state TLC printed."""
+    res = {}
+    blocks = re.split(r"\nState \d+: ", out)
+    if len(blocks) < 2:
+        return res
+    last = blocks[-1]
+    m = re.search(r"/\\ l = (\d+)", last)
+    if m:
+        res["l"] = int(m.group(1))
+    m = re.search(r"/\\ bad = (.*?)(?=\n/\\ |\n\n|\Z)", last, re.S)
+    if m:
+        res["bad_text"] = " ".join(m.group(1).split())
+        t = re.search(r'<<"((?:[^"\\]|\\.)*)"', res["bad_text"])
+        if t:
+            res["first_tag"] = t.group(1)
+    return res
+
+
 def cex_last_l(cex):
     """Value of the trace position variable `l` in the last state of a json counterexample."""
     st = cex_states(cex)
